@@ -50,7 +50,13 @@ type c10Err struct{ k int }
 
 func (e c10Err) Error() string { return "E" + strconv.Itoa(e.k) }
 
+// c10Hangs counts the calls of this process that did not return: after c10MaxHangs of them the remaining
+// operations are not executed (`res=skipped`), so that a broken tree costs seconds, not the whole budget
+// (every hang costs the watchdog time; the replay / shrinking of a hang runs in a fresh process).
+var c10Hangs int32
+
 const (
+	c10MaxHangs    = 3
 	c10ProbeYields = 400
 	c10HangMax   = 4 * time.Second
 	c10SettleMax = 1500 * time.Millisecond
@@ -145,6 +151,9 @@ func (e *c10Events) fire(tok string, keys ...string) {
 func c10Exec(op []string) string {
 	if len(op) == 0 || op[0] != "run" {
 		return "bad-op"
+	}
+	if atomic.LoadInt32(&c10Hangs) >= c10MaxHangs {
+		return "res=skipped left=0 mapped=- reduced=- hist=- stalltimeouts=0 panicked=0 waitsbyret=0"
 	}
 	cfg := verifh.ParseCfg(strings.Join(op[1:], " "))
 	api := cfg.Str("api", "mr")
@@ -401,6 +410,7 @@ func c10Exec(op []string) string {
 	case res = <-resCh:
 	case <-time.After(c10HangMax):
 		res = "hang"
+		atomic.AddInt32(&c10Hangs, 1)
 		ev.fire("", "ret") // release every stalled user function; no `ret` token: the call did not return
 	}
 	left := 0
@@ -994,21 +1004,38 @@ func c10Races(r *verifh.Rng, w int) []c10Cfg {
 
 	// E. the context ends at a forced point: mapper t ends it; the reducer writes only after it has ended (the
 	//    write must be dropped); the generator stalls until it has ended
-	for t := 0; t < w; t++ {
-		c := mk(w + 1 + r.Intn(2))
-		c.ctx = "can"
-		for k := 0; k < c.n; k++ {
-			c.m[k] = []string{"w" + val()}
+	for rep := 0; rep < 3; rep++ {
+		for t := 0; t < w; t++ {
+			c := mk(w + 1 + r.Intn(2))
+			c.ctx = "can"
+			for k := 0; k < c.n; k++ {
+				c.m[k] = []string{"w" + val()}
+			}
+			c.m[t] = []string{"x"}
+			c.r = []string{"uxb", "w7"}
+			if r.Bool() {
+				c.r = append(c.r, "a")
+			}
+			if r.Bool() {
+				c.gw = []string{it(r.Range(t+1, c.n)) + ":xb"}
+			}
+			out = append(out, c)
 		}
-		c.m[t] = []string{"x"}
-		c.r = []string{"uxb", "w7"}
-		if r.Bool() {
-			c.r = append(c.r, "a")
+		// the context is over from the start / is ended by the generator before the first item: whatever the
+		// reducer writes must be dropped (the caller's select may take either the context or the closed output)
+		for _, rs := range [][]string{{"w7"}, {"w7", "a"}, {"o", "w7"}, {"a", "w7"}, {"y", "w7", "w8"}} {
+			c := mk(r.Range(0, w+1))
+			for k := 0; k < c.n; k++ {
+				c.m[k] = []string{"w" + val()}
+			}
+			c.ctx = "pre"
+			if r.Chance(1, 3) {
+				c.ctx, c.gx = "can", 0
+				rs = append([]string{"uxb"}, rs...)
+			}
+			c.r = append([]string(nil), rs...)
+			out = append(out, c)
 		}
-		if r.Bool() {
-			c.gw = []string{it(r.Range(t+1, c.n)) + ":xb"}
-		}
-		out = append(out, c)
 	}
 	for i := range out {
 		if c10ReducerWrites(out[i]) == 0 && r.Chance(1, 6) {
@@ -1041,7 +1068,7 @@ func c10Gen(r *verifh.Rng) []verifh.Section {
 			}
 		}
 	}
-	for rep := verifh.Scale(1, 6); rep > 0; rep-- {
+	for rep := verifh.Scale(1, 25); rep > 0; rep-- {
 		for w := 1; w <= maxW; w++ {
 			for _, c := range c10Races(r, w) {
 				lines = append(lines, c.String())
